@@ -328,7 +328,7 @@ def parse_assumptions(log):
             i += 1
             while i < len(lines) and (lines[i].startswith(" ") or re.match(r"^[A-Za-z_][\w.']*\s*:", lines[i]) or lines[i].strip() == ""):
                 m = re.match(r"^([A-Za-z_][\w.']*)\s*:", lines[i])
-                if m:
+                if m and m.group(1) != "Axioms":
                     ax.add(m.group(1))
                 if lines[i].strip() == "":
                     break
@@ -474,8 +474,11 @@ class Check:
         ev = {"property_id": self.pid, "tier": self.tier, "seed": self.seed, "level": "proof",
               "coverage": self.cov, "assumptions": self.assumptions,
               "wall_s": round(time.time() - self.t0, 2), "violations": len(viol) + (1 if (unexplained and not viol) else 0)}
-        os.makedirs(os.path.join(VERIF, "evidence"), exist_ok=True)
-        json.dump(ev, open(os.path.join(VERIF, "evidence", self.pid + ".json"), "w"), indent=1, default=str)
+        # VERIF_EVIDENCE_DIR: used by the seeded-change campaign so that runs on a mutated tree never
+        # overwrite the evidence of the unchanged tree
+        evdir = os.environ.get("VERIF_EVIDENCE_DIR") or os.path.join(VERIF, "evidence")
+        os.makedirs(evdir, exist_ok=True)
+        json.dump(ev, open(os.path.join(evdir, self.pid + ".json"), "w"), indent=1, default=str)
         for l in lines:
             print(l)
         print("%s %s: obligations %d/%d, cases %d (%d distinct non-trivial), failures %d (unlisted %d), broken %d, %.1fs" % (
